@@ -251,47 +251,53 @@ func classifyHandshakeGuardD(cd Cond, protoLine string, depth int) []string {
 }
 
 func runR11_2(c *Ctx, r *R) {
-	// loops started only on the OK edge of handshake()
+	// loops started only on the OK edge of handshake(): wherever in the package a loop is started, the start - or,
+	// when it sits in a helper (conn.runLoops), every call of that helper - lies behind handshake().OK()
 	if f := r.Need("mpx", "conn.run"); f != nil {
-		var hs *ssa.Call
-		for _, call := range callsIn(f, false) {
-			if o := calleeObj(call); o != nil && objName(o) == "conn.handshake" {
-				hs, _ = call.(*ssa.Call)
+		hsOK := func(cd Cond, fn *ssa.Function) bool {
+			cv, truth := cd.V, cd.Truth
+			if un, ok := cv.(*ssa.UnOp); ok && un.Op == token.NOT {
+				cv, truth = un.X, !truth
 			}
+			v, ok := okCallOn(cv)
+			if !ok || !truth {
+				return false
+			}
+			call, ok := v.(*ssa.Call)
+			if !ok {
+				return false
+			}
+			o := calleeObj(call)
+			return o != nil && objName(o) == "conn.handshake"
 		}
 		for _, loop := range []string{"receiveLoop", "sendLoop"} {
 			key := fnKey(f) + "/start-" + loop
 			var starts []ssa.Instruction
-			allInstrs(f, func(i ssa.Instruction) {
-				// method value c.receiveLoop is a MakeClosure over the bound method wrapper
-				if mc, ok := i.(*ssa.MakeClosure); ok {
-					if fn, ok := mc.Fn.(*ssa.Function); ok && strings.Contains(fn.Name(), loop) {
-						starts = append(starts, i)
-					}
+			for _, g := range c.SrcFuncs("mpx") {
+				if strings.HasPrefix(baseName(c.Fset.Position(g.Pos()).Filename), "test_") {
+					continue
 				}
-				if call, ok := i.(ssa.CallInstruction); ok {
-					if o := calleeObj(call); o != nil && o.Name() == loop {
-						starts = append(starts, i)
+				allInstrs(g, func(i ssa.Instruction) {
+					// method value c.receiveLoop is a MakeClosure over the bound method wrapper
+					if mc, ok := i.(*ssa.MakeClosure); ok {
+						if fn, ok := mc.Fn.(*ssa.Function); ok && strings.Contains(fn.Name(), loop) {
+							starts = append(starts, i)
+						}
 					}
-				}
-			})
+					if call, ok := i.(ssa.CallInstruction); ok {
+						if o := calleeObj(call); o != nil && objName(o) == "conn."+loop {
+							starts = append(starts, i)
+						}
+					}
+				})
+			}
 			if len(starts) == 0 {
-				r.Unk(key, f.Pos(), "anchor lost: %s is not started in conn.run", loop)
+				r.Unk(key, f.Pos(), "anchor lost: %s is not started anywhere in package mpx", loop)
 				continue
 			}
-			okAll := hs != nil
+			okAll := true
 			for _, s := range starts {
-				guarded := false
-				for _, cd := range pathConds(s.Block()) {
-					cv, truth := cd.V, cd.Truth
-					if un, ok := cv.(*ssa.UnOp); ok && un.Op == token.NOT {
-						cv, truth = un.X, !truth
-					}
-					if v, ok := okCallOn(cv); ok && truth && v == ssa.Value(hs) {
-						guarded = true
-					}
-				}
-				if !guarded {
+				if !guardedThroughCallers(c, "mpx", s, hsOK, 0) {
 					okAll = false
 				}
 			}
